@@ -8,6 +8,7 @@ pub mod c19;
 pub mod c20;
 pub mod c20j;
 pub mod c20k;
+pub mod c20u;
 pub mod concprops;
 pub mod crashprops;
 pub mod seqprops;
@@ -209,8 +210,16 @@ pub fn dispatch(id: &str, tier: Tier, seed: u64, replay: Option<&str>) -> i32 {
                 if text.contains("\"direct_io_default_allocator\"") {
                     return c20j::replay(path);
                 }
+                if text.contains("\"public_utilities\"") {
+                    return c20u::replay(path);
+                }
             }
             c20::run(tier, seed, replay)
+        }
+        "C20U" => {
+            // the public-utility stage of C20 alone (child of the AddressSanitizer run)
+            let journal = std::env::var("FXV_C20U_JOURNAL").unwrap_or_else(|_| "/dev/null".into());
+            c20u::child(tier, seed, &journal)
         }
         "C20J" => {
             // the default-allocator stage of C20 alone (run by the uninstrumented binary)
@@ -320,7 +329,22 @@ pub fn dispatch(id: &str, tier: Tier, seed: u64, replay: Option<&str>) -> i32 {
         }
         "C15" => c15::run(tier, seed, replay),
         "C02" => crashprops::run("C02", tier, seed, replay),
-        "C03" => crashprops::run("C03", tier, seed, replay),
+        "C03" => {
+            if let Some(path) = replay {
+                let text = std::fs::read_to_string(path).unwrap_or_default();
+                if text.contains("\"synth_recovery\"") {
+                    return synthrec::replay(path);
+                }
+                return crashprops::run("C03", tier, seed, replay);
+            }
+            let code = crashprops::run("C03", tier, seed, None);
+            // states a crash can leave behind, built directly by the codec (duplicates, pending
+            // markers, active journals, expired winners, runs of hundreds of keys): every key
+            // exposed is the newest complete generation and len() == keys exposed
+            let (ucode, summary) = synthrec::campaign("C03", tier, seed ^ 0x33);
+            fold_into_evidence("C03", "recovery_of_synthesised_images", summary, "images", ucode);
+            code.max(ucode)
+        }
         "C04" => {
             if let Some(path) = replay {
                 let text = std::fs::read_to_string(path).unwrap_or_default();
